@@ -5,6 +5,7 @@ mod codec_suite;
 mod direct_suite;
 mod lat_suite;
 mod limits_suite;
+mod links_suite;
 mod oracle;
 mod pool_suite;
 mod reader_suite;
@@ -222,6 +223,12 @@ fn main() {
       let (rt, local) = local_rt();
       let (seed, cases) = (a.seed, a.cases);
       let t = local.block_on(&rt, async move { limits_suite::run_suite(seed, cases).await });
+      std::fs::write(&a.out, t).expect("write transcript");
+    },
+    "links" => {
+      let (rt, local) = local_rt();
+      let (seed, cases) = (a.seed, a.cases);
+      let t = local.block_on(&rt, async move { links_suite::run_suite(seed, cases).await });
       std::fs::write(&a.out, t).expect("write transcript");
     },
     "timers" => {
